@@ -447,6 +447,16 @@ def _c12(ctx, ad, cfg, env, runner, rng, drv, mult):
                      (st.get("sig") or {}).get("obs"))
     if todo:
         ctx.sample({"env": ad.name, "config": cfg.cid, "obs_keys": sorted(ad.ser_obs(env, todo[0][2].observation).keys())})
+    # the adapters' synthetic states (long snakes, stacked Tetris fields, collisions, dense LBF states …): only the observation part of
+    # what they compare belongs to this property
+    if hasattr(ad, "synthetic"):
+        sub = Ctx(ctx.pid, ctx.tier, ctx.seed)
+        sub.driver = drv
+        ad.synthetic(sub, cfg, env, runner, rng, drv)
+        ctx.evaluations += sub.evaluations
+        for f in sub.failures:
+            if "obs" in f.what:
+                ctx.fail(f.env, "obs_vs_state", "synthetic state: " + f.what, f.replay, {k: v for k, v in f.sig.items() if k not in ("env", "kind")})
 
 
 # --------------------------------------------------------------------------------------
